@@ -59,13 +59,18 @@ type Table struct {
 }
 
 type export struct {
-	Table   []row      `json:"table"`
-	Classes []classRow `json:"classes"`
-	NumDone []string   `json:"numdone"`
+	Table   []row             `json:"table"`
+	Classes []classRow        `json:"classes"`
+	NumDone []string          `json:"numdone"`
+	Compact []json.RawMessage `json:"compact"` // present in the transducer export only
 }
 
 var canonModes = []string{"S", "AFT", "SE", "REJ", "CL", "V", "T1", "NI", "L1", "F1", "A0", "K0", "NM", "N0", "K", "U1", "U2", "U3", "U4", "NE", "ND", "NF", "NX", "NS", "T2", "T3", "F2", "F3", "F4", "L2", "L3"}
 var canonClasses = []string{"sp", "t", "b", "r", "s", "d", "n", "e", "a", "f", "lb", "rb", "lc", "rc", "cm", "cl", "q", "bs", "sl", "mi", "pl", "dt", "z", "E", "l", "u", "hl", "hu", "wc", "NUL", "CTL", "HI", "oth"}
+
+// the transducer export (JsonTransformExport) was first loaded in another order; its recorded baselines depend on it
+var canonModesX = []string{"S", "AFT", "SE", "REJ", "CL", "V", "T1", "L1", "NI", "F1", "A0", "K0", "NM", "N0", "K", "U1", "U2", "U3", "U4", "NE", "ND", "NF", "NX", "NS", "T2", "T3", "F2", "F3", "F4", "L2", "L3"}
+var canonClassesX = []string{"sp", "t", "b", "n", "r", "s", "e", "d", "a", "f", "lb", "rb", "lc", "rc", "cm", "cl", "q", "bs", "sl", "mi", "pl", "dt", "z", "E", "l", "u", "hl", "hu", "wc", "NUL", "CTL", "HI", "oth"}
 
 var topIdx = map[string]int{"-": TopEmpty, "A": TopA, "K": TopK, "O": TopO}
 var TopName = []string{"-", "A", "K", "O"}
@@ -84,11 +89,15 @@ func Load(path string) (*Table, error) {
 	t := &Table{ModeIdx: map[string]int{}, ClassIdx: map[string]int{}, MaxDepth: 10000}
 	// Mode and class indexes must not depend on the order in which TLC happens to print the rows (a set): the fixed-seed
 	// generators pick classes by index.  Names are numbered in this canonical order first; unknown names follow sorted.
-	for _, m := range canonModes {
+	cm, cc := canonModes, canonClasses
+	if len(e.Compact) > 0 {
+		cm, cc = canonModesX, canonClassesX
+	}
+	for _, m := range cm {
 		t.ModeIdx[m] = len(t.Modes)
 		t.Modes = append(t.Modes, m)
 	}
-	for _, c := range canonClasses {
+	for _, c := range cc {
 		t.ClassIdx[c] = len(t.Classes)
 		t.Classes = append(t.Classes, c)
 	}
